@@ -37,8 +37,8 @@ func init() {
 		},
 		NotDecided: []string{
 			"the schedule quantifier as such (all interleavings): no concurrency in the VC semantics; it is reduced to the lock discipline above",
-			"that GetValidPrices / GetValidMedianPrices collect exactly the fresh prices of a market: they range over Go maps (order-dependent append; the multiset view is not expressible in the contract language); freshness per entry (GetValidPrice), forward-only update per entry (UpdatePrice) and the median of the collected list (lib.Median) are decided",
-			"nil-safety of the cache's nested maps (stored map values are non-nil: no contract syntax for Go map invariants); those panic obligations are reported undecided and not claimed",
+			"that GetValidPrices returns EVERY fresh price and each once (completeness / multiplicity over a Go map range: the witness for an existential after an append is not found by the solvers; no multiset view in the contract language); decided: every returned price is a stored price that is fresh at the cut-off, the cut-off is the read time minus the maximum age, freshness per entry (GetValidPrice), forward-only update per entry (UpdatePrice), the median of the collected list (lib.Median); not decided: that a market with fewer fresh prices than MinExchanges is absent from the result",
+			"nil-safety on the update path (entries of the update lists and freshly inserted map values); on the read path it is decided under the stated store invariant (stored map values are non-nil)",
 		},
 	})
 	reg(&PropDef{
@@ -137,15 +137,17 @@ func init() {
 	reg(&PropDef{
 		ID:    "C14",
 		Title: "Bridge deposits mint once, conditionally; withdrawals burn what they attest",
-		Funcs: fcNP("x/bridge/keeper.Keeper.ClaimDeposit", "x/bridge/keeper.Keeper.WithdrawTokens", "x/bridge/keeper.msgServer.WithdrawTokens"),
+		Funcs: append(fcNP("x/bridge/keeper.Keeper.ClaimDeposit", "x/bridge/keeper.Keeper.WithdrawTokens", "x/bridge/keeper.msgServer.WithdrawTokens", "x/bridge/keeper.Keeper.CreateWithdrawalAggregate"),
+			fc("x/bridge/keeper.Keeper.DecodeDepositReportValue")...),
+		Sweeps: []string{"sol_encodings"},
 		Assumptions: []string{
-			"results of the oracle/bridge lookups used by ClaimDeposit (GetAggregateByIndex, GetValidatorSetTimestampBefore, GetValidatorCheckpointParamsFromStorage, DecodeDepositReportValue) are unconstrained: the guards are proved relative to whatever those calls return (ret(F,i))",
+			"go-ethereum's abi packing/unpacking as uninterpreted functions with the round-trip axiom unpack(types, pack(types, values), i) = values[i] (tools/govc/abi.go); hex.EncodeToString/DecodeString are inverse; the EVM side's deposit record and withdrawal decoding are pinned textually (sweep sol_encodings)",
+			"results of the oracle/bridge lookups used by ClaimDeposit (GetAggregateByIndex, GetValidatorSetTimestampBefore, GetValidatorCheckpointParamsFromStorage) are unconstrained: the guards are proved relative to whatever those calls return (ret(F,i))",
 			"the claimer and the decoded recipient are not the bridge module account; the sender of a withdrawal is not the bridge module account",
 			"total bonded tokens fit uint64; the withdrawal id is below 2^64-1",
 		},
 		NotDecided: []string{
-			"exactness of DecodeDepositReportValue (amount/10^12, tip, recipient) against the ABI encoding: abi.Unpack is unmodelled",
-			"that the aggregate value of a withdrawal encodes recipient, sender and amount (GetWithdrawalReportValue): abi.Pack is unmodelled; only the data flow (aggregate from CreateWithdrawalAggregate with this id and amount is the one stored) is proved",
+			"DecodeDepositReportValue truncates amount/10^12 with big.Int.Int64(): for a reported amount of 2^63 * 10^12 or more the coin amount wraps (NewInt64Coin panics on a negative one): the decoded-amount clauses are stated for amounts below that bound, the panic obligations are not claimed",
 			"that no reporter can create an aggregate for a withdrawal query (PreventBridgeWithdrawalReport and writers of Aggregates): not yet under contract",
 			"batched claims (msgServer.ClaimDeposits loop)",
 		},
@@ -174,7 +176,7 @@ func init() {
 		},
 		NotDecided: []string{
 			"non-negativity of every credit and of the last reporter's remainder, and the n*10^-18 bound between the sum of selector credits and the reward: nonlinear bounds over all reporters are not carried",
-			"proportionality across reporters (the map-building passes of AllocateRewards have no functional invariants yet); the call-site preconditions of CalculateRewardAmount and AllocateTip inside AllocateRewards are therefore not claimed",
+			"proportionality across reporters beyond: the weight kept for a reporter is that reporter's own power (under the precondition that a reporter has one power in all aggregates rewarded together); the report count per reporter and the total power have no functional invariant; the call-site preconditions of CalculateRewardAmount and AllocateTip inside AllocateRewards are therefore not claimed",
 			"time-based reward list and amount (SetAggregatedReport)",
 		},
 	})
@@ -289,7 +291,7 @@ func init() {
 		},
 		NotDecided: []string{
 			"per-backer records of a second fee payment for the same dispute (the earlier records are appended: needs a sum-over-concatenation lemma)",
-			"EscrowReporterStake / undelegate (apportioning over backers, redelegation chase) and WithdrawTip are not under contract; for ReturnSlashedTokens / FeeRefund / AddAmountToStake the decided part is: every Delegate takes the bonded pool as token source with subtractAccount=false (matching the dispute module's transfer into the bonded pool), without a winning purse every backer gets back exactly what was taken, the record is consumed; the pro-rata amounts with a purse or a partial fee refund (at most one unit lost per entry) are not decided",
+			"EscrowReporterStake is under contract for its record accounting only (C11); WithdrawTip is not under contract; for ReturnSlashedTokens / FeeRefund / AddAmountToStake the decided part is: every Delegate takes the bonded pool as token source with subtractAccount=false (matching the dispute module's transfer into the bonded pool), without a winning purse every backer gets back exactly what was taken, the record is consumed; the pro-rata amounts with a purse or a partial fee refund (at most one unit lost per entry) are not decided",
 			"FeeRefund and AddAmountToStake index the list of bonded validators at 0 without a length check (a chain without bonded validators): panic obligation not claimed",
 			"the pool >= ledger invariant itself is the staking module's and is not modelled",
 		},
